@@ -1,11 +1,17 @@
 import PeliteModel.Driver.Image
 /-! `walk <k>`: the implementation exercises its whole API; the model only says whether the
-constructor accepts the image (outcome class `ok` / `noimg`), which is all that is compared. -/
+constructor accepts the image (outcome class `ok` / `noimg`), which is all that is compared.
+For `k = wf | wv` the constructor is the format-agnostic one (`wrapFromBytes`): the implementation
+walks the wrapper API there, and class C19 compares its item stream with the walk of the
+format-specific view the wrapper selected (implementation against implementation). -/
 namespace Pelite.Driver
 def dispatchWalk : Handler := fun st fam a =>
   match fam, a with
   | "walk", [k] => some (withView st.img k fun _ => "ok")
-  -- `iter <k> <source> <history>`: the implementation runs the history beside a VecDeque (in-harness oracle)
-  | "iter", [k, _, _] => some (withView st.img k fun _ => "ok")
+  -- `walktext <k>`: the wrapper-API item stream itself (diagnosis of a digest difference)
+  | "walktext", [k] => some (withView st.img k fun _ => "ok")
+  -- `iter <k> <source> <history> [want_n=<n>]`: the implementation runs the history beside a VecDeque
+  -- (in-harness oracle); trailing tokens are the generator's expectation, read by the Python side
+  | "iter", k :: _ :: _ :: _ => some (withView st.img k fun _ => "ok")
   | _, _ => none
 end Pelite.Driver
